@@ -7309,6 +7309,15 @@ fn eval_break(env: &mut Env, expr_value_is_used: bool) {
     while let Some((expr_state, expr)) = env.current_frame_mut().exprs_to_eval.pop() {
         match &expr.expr_ {
             Expression_::While(_, _) => {
+                // If we were inside the loop body, pop its bindings
+                // block.
+                if matches!(
+                    expr_state,
+                    ExpressionState::PartiallyEvaluated(BlockState::DoneRunBlock)
+                ) {
+                    env.current_frame_mut().bindings.pop_block();
+                }
+
                 env.current_frame_mut()
                     .exprs_to_eval
                     .push((ExpressionState::EvaluatedSubexpressions, Rc::clone(&expr)));
@@ -7334,10 +7343,7 @@ fn eval_break(env: &mut Env, expr_value_is_used: bool) {
                 // We're exiting a block that wasn't part of a loop
                 // (i.e. a match case or an if/else block), so we
                 // should pop the bindings block here too.
-                if matches!(
-                    expr_state,
-                    ExpressionState::PartiallyEvaluated(BlockState::DoneRunBlock)
-                ) {
+                if expr_owns_bindings_block(&expr, &expr_state) {
                     env.current_frame_mut().bindings.pop_block();
                 }
 
@@ -7367,7 +7373,23 @@ fn eval_continue(env: &mut Env) {
             env.push_expr_to_eval(expr_state, expr);
             break;
         }
+
+        // We're leaving a block that wasn't part of a loop (i.e. a
+        // match case or an if/else block), so pop its bindings block.
+        if expr_owns_bindings_block(&expr, &expr_state) {
+            env.current_frame_mut().bindings.pop_block();
+        }
     }
+}
+
+/// Is this pending expression an `if`, `match` or `try` whose block
+/// is currently being evaluated? These expressions pop the bindings
+/// block of their body when they reach `EvaluatedSubexpressions`.
+fn expr_owns_bindings_block(expr: &Expression, expr_state: &ExpressionState) -> bool {
+    matches!(
+        expr.expr_,
+        Expression_::If(_, _, _) | Expression_::Match(_, _) | Expression_::Try(_, _, _)
+    ) && expr_state.done_subexpressions()
 }
 
 fn eval_namespace_access(
